@@ -119,6 +119,12 @@ package resolve
 //@               imp(old(lc.PackageVersions[v.PackageKey][j].VersionKey) == v.VersionKey,
 //@                   j < len(lc.PackageVersions[v.PackageKey]) && lc.PackageVersions[v.PackageKey][j] == v)))
 //@   ensures imp(!v.HasAttr(version.Deleted), forall(j, 0, len(deps), has(lc.PackageVersions, deps[j].PackageKey)))
+//@   ensures imp(v.HasAttr(version.Deleted), has(lc.imports, v.VersionKey) == old(has(lc.imports, v.VersionKey)) &&
+//@           lc.imports[v.VersionKey] == old(lc.imports[v.VersionKey]))
+//@   ensures imp(v.HasAttr(version.Deleted), has(lc.PackageVersions, v.PackageKey) == old(has(lc.PackageVersions, v.PackageKey)) &&
+//@           lc.PackageVersions[v.PackageKey] == old(lc.PackageVersions[v.PackageKey]) &&
+//@           forall(j, 0, len(old(lc.PackageVersions[v.PackageKey])),
+//@                  lc.PackageVersions[v.PackageKey][j] == old(lc.PackageVersions[v.PackageKey][j])))
 //@   loop 0
 //@     invariant forall(j, 0, rangeidx + 1, imp(old(versions[j].VersionKey) == v.VersionKey, versions[j] == v))
 //@     invariant forall(j, rangeidx + 1, len(versions), versions[j] == old(versions[j]))
